@@ -334,7 +334,7 @@ impl Prop for C13 {
 			if i % nshards != shard {
 				continue;
 			}
-			for text in [format!("s{}:p/q?r#f", "x".repeat(n)), format!("S{}://u@h:1/", "9".repeat(n)), format!("{}_:b/c", "a".repeat(n)), format!("./{}:b", "a".repeat(n)), format!("s:{}\u{e9}", "a".repeat(n))] {
+			for text in [format!("s{}:p/q?r#f", gen::filler(n)), format!("S{}://u@h:1/", "9".repeat(n)), format!("{}_:b/c", "a".repeat(n)), format!("./{}:b", "a".repeat(n)), format!("s:{}\u{e9}", "a".repeat(n))] {
 				if !f(Case { text, other: "s:p".into(), ops: vec![] }, true) {
 					return vec![];
 				}
